@@ -488,10 +488,11 @@ def bounded_try_coerce_all_registered_types(seed=0, tier="quick"):
                 pass
     pandas_types.append(("Category[a,b]", pandas_engine.Category(categories=["a", "b"])))
     pandas_types.append(("Category[1,2]", pandas_engine.Category(categories=[1, 2])))
+    pandas_types.append(("Decimal(3,2)", pandas_engine.Decimal(3, 2)))  # (negative values: the sign is not a digit of the precision)
     for name, dt in pandas_types:
         for _ in range(n_per_type):
             n = rng.randint(0, 5)
-            vals = [rng.choice(pool + ["b", "a", 2, 1]) for _ in range(n)]
+            vals = [rng.choice(pool + ["b", "a", 2, 1]) for _ in range(n)] if not name.startswith("Decimal") else [rng.choice(["-1.50", "1.5", "-0.25", 2, -3, "9.99", "-9.99", None]) for _ in range(n)]
             s = pd.Series(vals, dtype=object)
             examples += 1
 
